@@ -1,29 +1,34 @@
 /-
   C03 — executable model of the finality machinery (core Lean only).
 
-  Anchors (read line by line, defects kept):
+  Anchors (read line by line):
     chain/consensus/stable_manager.go   IsConfirmEnough, StableManager.UpdateStable
-    chain/consensus/validator.go        VerifyNewConfirms (with the signer map of commit d34eb0a), IsSigExist, VerifyConfirmPacket
+    chain/consensus/validator.go        VerifyNewConfirms (signer map of commit d34eb0a), IsSigExist, VerifyConfirmPacket, verifySigner
     chain/types/block.go                Block.IsConfirmExist   (byte comparison only)
-    chain/consensus/dpovp.go            InsertBlock / saveNewBlock / InsertConfirms / insertConfirms
+    chain/consensus/dpovp.go            InsertBlock / saveNewBlock / InsertConfirms / insertConfirms / UpdateStable /
+                                        saveSnapshot / batchConfirmStable / MineBlock (the saveNewBlock half)
+    chain/consensus/confirmer.go        TryConfirm, needConfirm, confirmBlock, SetLastSig, tryConfirmStable, SaveConfirm
     chain/consensus/fork_manager.go     UpdateFork, UpdateForkForConfirm, ChooseNewFork, needSwitchFork, isCurrentForkCut
-    chain/consensus/confirmer.go        SaveConfirm
     store/chain_database.go             SetBlock, appendConfirm/setConfirm, SetStableBlock (commit + prune), GetUnConfirmByHeight
-    chain/deputynode/manager.go         TwoThirdDeputyCount
+    chain/deputynode/manager.go         NewManager.init, SaveSnapshot, GetTermByHeight, GetDeputiesByHeight, TwoThirdDeputyCount
+    chain/deputynode/term_record.go     NewTermRecord (panics), GetDeputies, IsSnapshotBlock, GetSignerTermIndexByHeight
+                                        (the last two are the GENERATED definitions of LemoGen.Schedule, tools/go2lean)
 
-  A signature is a byte string; what the code can learn from it is the node it
-  recovers to.  `Sig = (signer, variant)`: `signer` is the recovered node
-  (`none` = Ecrecover fails), `variant` separates different byte strings that
-  recover to the same node (0 = the deterministic `crypto.Sign` output,
-  1 = its re-encoding (r, N−s, v⊕1), 2.. = signatures with other nonces).
-  Byte equality of signatures is structural equality of `Sig`; `recover` is
-  deliberately NOT injective.
+  A signature is a byte string; what the code can learn from it is the node it recovers to.
+  `Sig = (signer, variant)`: `signer` is the recovered node (`none` = Ecrecover fails), `variant`
+  separates different byte strings that recover to the same node (0 = the deterministic `crypto.Sign`
+  output, 1 = its re-encoding (r, N−s, v⊕1), 2.. = signatures with other nonces).  Byte equality of
+  signatures is structural equality of `Sig`; `recover` is deliberately NOT injective.
 
-  The unconfirmed tree (`ChainDatabase.UnConfirmBlocks` + CBlock parent/children
-  pointers) is a list of blocks, NEWEST FIRST (SetBlock conses), so the parent of
-  a block is always later in the list or is the stable block.
+  Nodes are numbered by the harness (index of the node key in the scenario's key list); the deputies
+  of a term are a list of such numbers in rank order.
+
+  The unconfirmed tree (`ChainDatabase.UnConfirmBlocks` + CBlock parent/children pointers) is a list of
+  blocks, NEWEST FIRST (SetBlock conses), so the parent of a block is always later in the list or is
+  the stable block.
 -/
 import LemoModel.GoSem
+import LemoGen.Schedule
 namespace LemoModel.Stable
 
 structure Sig where
@@ -38,10 +43,12 @@ structure Blk where
   id : Nat          -- the block hash (label)
   parent : Nat      -- parent hash
   height : Nat
-  miner : Nat       -- rank of the deputy named by Header.MinerAddress
+  miner : Nat       -- node named by Header.MinerAddress
   rank : Nat        -- position of the hash in byte order (ChooseNewFork tie break)
   hdr : Sig         -- Header.SignData
   confirms : List Sig
+  nextDeps : List Nat := []  -- Block.DeputyNodes (snapshot blocks and genesis: the next term, rank order)
+  snapBad : Bool := false    -- NewTermRecord would panic on DeputyNodes (rank / votes order; C10's finding)
   deriving DecidableEq, Repr
 
 /-- `uint32(math.Ceil(float64(n) * 2.0 / 3.0))` — integer form; the equality with the float
@@ -50,9 +57,10 @@ structure Blk where
 def twoThirds (n : Nat) : Nat := (2 * n + 2) / 3
 
 /-- `IsConfirmEnough`: `len(Confirms)+1` against the fast path (configured maximum `dc`) and the
-    term's deputy count `n`.  Counts signatures, not signers. -/
-def isConfirmEnough (dc n : Nat) (b : Blk) : Bool :=
-  decide (twoThirds dc ≤ b.confirms.length + 1) || decide (twoThirds n ≤ b.confirms.length + 1)
+    deputy count of the block's term. Counts signatures, not signers. With an unknown term
+    (`deps = []`, `TwoThirdDeputyCount = 0`) it is true for a block without any confirm. -/
+def isConfirmEnough (dc : Nat) (deps : List Nat) (b : Blk) : Bool :=
+  decide (twoThirds dc ≤ b.confirms.length + 1) || decide (twoThirds deps.length ≤ b.confirms.length + 1)
 
 /-- `Block.IsConfirmExist`: byte comparison with the header signature and the stored confirms. -/
 def isConfirmExist (b : Blk) (s : Sig) : Bool :=
@@ -70,45 +78,62 @@ def CErr.name : CErr → String
 
 /-- loop of `Validator.VerifyNewConfirms` AS IT WAS BEFORE /repo commit d34eb0a (bytes-only
     de-duplication; kept for the refutation theorems and for `C03_ASIS` runs against a reverted tree):
-    `valid` and `lastErr` are the accumulators. -/
-def verifyLoop (n : Nat) (b : Blk) : List Sig → List Sig → CErr → List Sig × CErr
+    `valid` and `lastErr` are the accumulators, `deps` the deputies of the block's term. -/
+def verifyLoop (deps : List Nat) (b : Blk) : List Sig → List Sig → CErr → List Sig × CErr
   | [], valid, e => (valid, e)
   | s :: rest, valid, e =>
     if s ∈ valid then                                    -- IsSigExist(validConfirms, sig)
-      verifyLoop n b rest valid (if e = .none then .existed else e)
+      verifyLoop deps b rest valid (if e = .none then .existed else e)
     else match recover s with
-      | none => verifyLoop n b rest valid .invalidSig    -- RecoverNodeID failed
+      | none => verifyLoop deps b rest valid .invalidSig    -- RecoverNodeID failed
       | some d =>
-        if ¬ d < n then verifyLoop n b rest valid .invalidSigner   -- GetDeputyByNodeID == nil
-        else if isConfirmExist b s then verifyLoop n b rest valid e -- "Duplicate confirm": BYTES only
-        else verifyLoop n b rest (valid ++ [s]) e
+        if ¬ d ∈ deps then verifyLoop deps b rest valid .invalidSigner   -- GetDeputyByNodeID == nil
+        else if isConfirmExist b s then verifyLoop deps b rest valid e    -- "Duplicate confirm": BYTES only
+        else verifyLoop deps b rest (valid ++ [s]) e
 
-def verifyNewConfirms (n : Nat) (b : Blk) (sigs : List Sig) : List Sig × CErr :=
-  verifyLoop n b sigs [] .none
+def verifyNewConfirms (deps : List Nat) (b : Blk) (sigs : List Sig) : List Sig × CErr :=
+  verifyLoop deps b sigs [] .none
 
-/-- loop of `Validator.VerifyNewConfirms` AS CODED NOW (/repo commit d34eb0a, the repair): everything
-    as before, plus one test — a confirmation whose RECOVERED NODE is the miner (header signer), the
-    signer of a stored confirm, or the signer of a confirm accepted earlier in this call, is dropped
-    (the `signers` map). This is the live model: the driver runs it by default. -/
-def verifyLoopFixed (n : Nat) (b : Blk) : List Sig → List Sig → CErr → List Sig × CErr
+/-- loop of `Validator.VerifyNewConfirms` AS CODED NOW (/repo commit d34eb0a): everything as before,
+    plus one test — a confirmation whose RECOVERED NODE is the miner (header signer), the signer of a
+    stored confirm, or the signer of a confirm accepted earlier in this call, is dropped (the
+    `signers` map). -/
+def verifyLoopFixed (deps : List Nat) (b : Blk) : List Sig → List Sig → CErr → List Sig × CErr
   | [], valid, e => (valid, e)
   | s :: rest, valid, e =>
     if s ∈ valid then
-      verifyLoopFixed n b rest valid (if e = .none then .existed else e)
+      verifyLoopFixed deps b rest valid (if e = .none then .existed else e)
     else match recover s with
-      | none => verifyLoopFixed n b rest valid .invalidSig
+      | none => verifyLoopFixed deps b rest valid .invalidSig
       | some d =>
-        if ¬ d < n then verifyLoopFixed n b rest valid .invalidSigner
-        else if isConfirmExist b s then verifyLoopFixed n b rest valid e
+        if ¬ d ∈ deps then verifyLoopFixed deps b rest valid .invalidSigner
+        else if isConfirmExist b s then verifyLoopFixed deps b rest valid e
         else if recover b.hdr = some d ∨ d ∈ b.confirms.filterMap recover ∨ d ∈ valid.filterMap recover then
-          verifyLoopFixed n b rest valid e                 -- NEW: "Duplicate confirm signer"
-        else verifyLoopFixed n b rest (valid ++ [s]) e
+          verifyLoopFixed deps b rest valid e                 -- "Duplicate confirm signer"
+        else verifyLoopFixed deps b rest (valid ++ [s]) e
 
-def verifyNewConfirmsFixed (n : Nat) (b : Blk) (sigs : List Sig) : List Sig × CErr :=
-  verifyLoopFixed n b sigs [] .none
+def verifyNewConfirmsFixed (deps : List Nat) (b : Blk) (sigs : List Sig) : List Sig × CErr :=
+  verifyLoopFixed deps b sigs [] .none
 
-/-- the verifier is a parameter of the engine model: the structural theorems hold for any of them. -/
-abbrev Verifier := Nat → Blk → List Sig → List Sig × CErr
+abbrev Verifier := List Nat → Blk → List Sig → List Sig × CErr
+
+/-- the test "is my signature already on the block?" of `Confirmer.TryConfirm` / `tryConfirmStable`
+    (block, own signature, own node). -/
+abbrev SelfTest := Blk → Sig → Nat → Bool
+
+/-- `block.IsConfirmExist(sig)`: bytes only. -/
+def selfTestBytes : SelfTest := fun b sig _ => isConfirmExist b sig
+
+/-- by signer (`block.IsConfirmExist(sig) || isSignedBySelf(block)`, /repo commit 262c027): the bytes
+    test, or the node is the header signer or the signer of a stored confirm. -/
+def selfTestSigner : SelfTest := fun b sig d =>
+  isConfirmExist b sig || decide (recover b.hdr = some d) || decide (d ∈ b.confirms.filterMap recover)
+
+/-- the two places of the engine that decide whether a signature is new are parameters of the model:
+    the structural theorems hold for any of them. -/
+structure Cfg where
+  V : Verifier
+  T : SelfTest
 
 /-- `ChainDatabase.appendConfirm`. -/
 def appendConfirm (b : Blk) : List Sig → Blk
@@ -118,20 +143,36 @@ def appendConfirm (b : Blk) : List Sig → Blk
     else appendConfirm { b with confirms := b.confirms ++ [s] } rest
 
 structure St where
-  dc : Nat               -- Manager.DeputyCount (configured maximum)
-  n : Nat                -- deputies of the (single) term
-  stable : Blk           -- ChainDatabase.LastConfirm.Block (in-memory pointer)
-  committed : List Blk   -- blocks written by blockCommit (the DB copies), newest first
-  tree : List Blk        -- UnConfirmBlocks, newest first
-  headId : Nat           -- ForkManager.head
+  dc : Nat                  -- Manager.DeputyCount (configured maximum)
+  termDur : Nat             -- params.TermDuration
+  interim : Nat             -- params.InterimDuration
+  terms : List (List Nat)   -- Manager.termList: the nodes of every known term, rank order
+  self : Nat                -- this node (deputynode self key); a deputy of a term iff listed there
+  lastSigH : Nat            -- Confirmer.lastSig
+  lastSigId : Nat
+  stable : Blk              -- ChainDatabase.LastConfirm.Block (in-memory pointer)
+  committed : List Blk      -- blocks written by blockCommit (the DB copies), newest first
+  tree : List Blk           -- UnConfirmBlocks, newest first
+  headId : Nat              -- ForkManager.head
   headHeight : Nat
   deriving Repr
 
-def genesis (rank : Nat) : Blk :=
-  { id := 0, parent := 0, height := 0, miner := 0, rank := rank, hdr := ⟨none, 0⟩, confirms := [] }
+/-- the genesis block: `DeputyNodes` = term 0. -/
+def genesis (rank : Nat) (term0 : List Nat) : Blk :=
+  { id := 0, parent := 0, height := 0, miner := 0, rank := rank, hdr := ⟨none, 0⟩, confirms := [], nextDeps := term0 }
 
-def init (dc n grank : Nat) : St :=
-  { dc := dc, n := n, stable := genesis grank, committed := [genesis grank], tree := [], headId := 0, headHeight := 0 }
+def init (dc termDur interim self grank : Nat) (term0 : List Nat) : St :=
+  { dc := dc, termDur := termDur, interim := interim, terms := [term0], self := self,
+    lastSigH := 0, lastSigId := 0,
+    stable := genesis grank term0, committed := [genesis grank term0], tree := [], headId := 0, headHeight := 0 }
+
+/-- `Manager.GetDeputiesByHeight(h, true)`: the term in charge of signing height `h`
+    (generated `GetSignerTermIndexByHeight`), truncated to `DeputyCount`; empty if the term is not
+    known yet (`ErrNoStableTerm`). -/
+def depsAt (s : St) (h : Nat) : List Nat :=
+  match s.terms[LemoGen.Schedule.GetSignerTermIndexByHeight h s.termDur s.interim]? with
+  | some l => l.take s.dc
+  | none => []
 
 def findBlk (l : List Blk) (id : Nat) : Option Blk := l.find? (fun x => x.id == id)
 
@@ -162,7 +203,7 @@ def setBlock (s : St) (b : Blk) : Option St :=
 def replaceBlk (l : List Blk) (nb : Blk) : List Blk :=
   l.map (fun x => if x.id = nb.id then { x with confirms := nb.confirms } else x)
 
-/-- `Confirmer.SaveConfirm` → `setConfirm`: the cached block is changed in place, a committed one is
+/-- `Confirmer.SaveConfirm` → `setConfirm`: the cached block is replaced, a committed one is
     rewritten in the database. Returns the new block. -/
 def saveConfirm (s : St) (b : Blk) (valid : List Sig) : St × Blk :=
   let nb := appendConfirm b valid
@@ -196,10 +237,83 @@ def setStable (s : St) (c : Blk) : St :=
 /-- `StableManager.UpdateStable`: (state, changed, error). -/
 def updateStable (s : St) (b : Blk) : St × Bool × Bool :=
   if b.height ≤ s.stable.height then (s, false, false)
-  else if !isConfirmEnough s.dc s.n b then (s, false, false)
+  else if !isConfirmEnough s.dc (depsAt s b.height) b then (s, false, false)
   else match findBlk s.tree b.id with
     | none => (s, false, true)            -- SetStableBlock: ErrArgInvalid
     | some c => (setStable s c, true, false)
+
+/-! ### term snapshots -/
+
+/-- `Manager.SaveSnapshot(h, nodes)` after `NewTermRecord(h, nodes)`; `none` = Go panic
+    (ErrNoDeputyInBlock / ErrInvalidDeputyRank / ErrInvalidDeputyVotes / ErrMissingTerm). -/
+def saveSnapshot (termDur : Nat) (terms : List (List Nat)) (b : Blk) : Option (List (List Nat)) :=
+  if b.snapBad || b.nextDeps.isEmpty then none
+  else
+    let idx := LemoGen.Schedule.GetDeputyTermIndexByHeight b.height termDur
+    if terms.isEmpty then some [b.nextDeps]
+    else if terms.length < idx then none
+    else if terms.length = idx then some (terms ++ [b.nextDeps])
+    else some ((terms.set idx b.nextDeps).take (idx + 1))      -- "Overwrite existed term", drop the later ones
+
+/-- `DPoVP.saveSnapshot(old+1, new)` / `Manager.init`: the snapshot blocks among `blocks` (newest
+    first, as the lists of this model are; processed oldest first) are saved as terms. The Go loop
+    reads the blocks by height from the database: these are exactly the blocks just committed. -/
+def saveSnapshots (termDur : Nat) (terms : List (List Nat)) : List Blk → Option (List (List Nat))
+  | [] => some terms
+  | b :: older =>
+    match saveSnapshots termDur terms older with
+    | none => none
+    | some t =>
+      if LemoGen.Schedule.IsSnapshotBlock b.height termDur then saveSnapshot termDur t b else some t
+
+/-! ### the node's own confirmations -/
+
+def setLastSig (s : St) (b : Blk) : St :=
+  if b.height > s.lastSigH then { s with lastSigH := b.height, lastSigId := b.id } else s
+
+/-- the signature `SignBlock` produces: deterministic, canonical. -/
+def selfSig (s : St) : Sig := ⟨some s.self, 0⟩
+
+/-- `Confirmer.needConfirm`. -/
+def needConfirm (s : St) (b : Blk) : Bool :=
+  let deps := depsAt s b.height
+  if !(deps.contains s.self) then false                    -- IsSelfDeputyNode
+  else if isConfirmEnough s.dc deps b then false
+  else
+    let lh := if s.lastSigH ≤ s.stable.height then s.stable.height else s.lastSigH
+    let lid := if s.lastSigH ≤ s.stable.height then s.stable.id else s.lastSigId
+    if b.parent = lid then true
+    else decide (b.height > GoSem.uadd 4294967296 lh (twoThirds deps.length))
+
+/-- `Confirmer.TryConfirm` (inside InsertBlock, before the block is stored). -/
+def tryConfirm (C : Cfg) (s : St) (b : Blk) : St × Blk :=
+  if needConfirm s b then
+    let s1 := setLastSig s b                               -- confirmBlock
+    if C.T b (selfSig s) s.self then (s1, b)
+    else (s1, { b with confirms := b.confirms ++ [selfSig s] })
+  else (s, b)
+
+/-- `Confirmer.tryConfirmStable` on the database copy `b` of a stable block (`GetBlockByHeight`).
+    `SaveConfirm` → `setConfirm` looks the hash up in the unconfirmed map first; a committed block is
+    not there, so the database copy is rewritten (`appendConfirm`, bytes test again). -/
+def tryConfirmStable (C : Cfg) (s : St) (b : Blk) : St :=
+  let deps := depsAt s b.height
+  if !(deps.contains s.self) then s
+  else if isConfirmEnough s.dc deps b then s
+  else
+    let s1 := setLastSig s b
+    if C.T b (selfSig s) s.self then s1
+    else { s1 with committed := replaceBlk s1.committed (appendConfirm b [selfSig s]) }
+
+/-- `DPoVP.batchConfirmStable(old+1, new)`: a goroutine in Go; the harness waits for it before the
+    next operation, the model runs it at once. `blocks`: the newly committed ones, newest first. -/
+def batchConfirm (C : Cfg) (s : St) : List Blk → St
+  | [] => s
+  | b :: older =>
+    let s1 := batchConfirm C s older
+    match findBlk s1.committed b.id with     -- GetBlockByHeight: the database copy
+    | some cb => tryConfirmStable C s1 cb
+    | none => s1
 
 /-! ### fork choice -/
 
@@ -219,7 +333,7 @@ def isCut (s : St) : Bool :=
 /-- `needSwitchFork`; `none` = Go panic (integer divide by zero when the term has no deputies). -/
 def needSwitchFork (s : St) (cand : Blk) : Option Bool :=
   if cand.height > s.headHeight then
-    let signDistance := twoThirds s.n
+    let signDistance := twoThirds (depsAt s cand.height).length
     if signDistance = 0 then none
     else some (decide (GoSem.usub 4294967296 cand.height s.stable.height % signDistance = 0))
   else some false
@@ -244,76 +358,143 @@ def setHead (s : St) (h : Option Blk) : St :=
 def updateForkForConfirm (s : St) : St :=
   if isCut s then setHead s (some (chooseNewFork s.stable s.tree)) else s
 
-/-! ### engine: InsertBlock, InsertConfirms -/
+/-! ### engine: UpdateStable, InsertBlock, MineBlock, InsertConfirms, restart -/
+
+/-- outcome of `DPoVP.UpdateStable`. -/
+inductive UOut where
+  | same | changed | err | panic
+  deriving DecidableEq, Repr
+
+/-- `DPoVP.UpdateStable`: `StableManager.UpdateStable`, then for the newly committed blocks
+    `saveSnapshot` (may panic — AFTER the commit) and `batchConfirmStable`. -/
+def updateStableFull (C : Cfg) (s : St) (b : Blk) : St × UOut :=
+  let r := updateStable s b
+  if r.2.2 then (r.1, .err)
+  else if !r.2.1 then (r.1, .same)
+  else
+    let newly := pathUp s.tree b.id        -- the blocks SetStableBlock has just committed, newest first
+    match saveSnapshots s.termDur r.1.terms newly with
+    | none => (r.1, .panic)
+    | some t => (batchConfirm C { r.1 with terms := t } newly, .changed)
 
 /-- `DPoVP.saveNewBlock`: store, try to move the stable pointer, re-pick the head. -/
-def saveNewBlock (s : St) (b : Blk) : St × String :=
+def saveNewBlock (C : Cfg) (s : St) (b : Blk) : St × String :=
   match setBlock s b with
   | none => (s, "ErrSaveBlock")
   | some s1 =>
-    match updateStable s1 b with
-    | (s2, _, true) => (s2, "ErrSaveBlock")
-    | (s2, _, false) =>
-      match forkDecision s2 b with
-      | none => (s2, "panic")
-      | some h => (setHead s2 h, "ok")
+    let s1' := if recover b.hdr = some s1.self then setLastSig s1 b else s1     -- IsMinedByself
+    let r := updateStableFull C s1' b
+    if r.2 = .err then (r.1, "ErrSaveBlock")
+    else if r.2 = .panic then (r.1, "panic")
+    else
+      match forkDecision r.1 b with
+      | none => (r.1, "panic")
+      | some h => (setHead r.1 h, "ok")
 
-/-- `DPoVP.InsertBlock` on a node that is not a deputy itself (TryConfirm is a no-op).
-    `valid` stands for every check of VerifyBeforeTxProcess/RunBlock/VerifyAfterTxProcess that is
-    outside this model (time slot, tx root, state roots). -/
-def insertBlock (V : Verifier) (s : St) (b : Blk) (valid : Bool) : St × String :=
+/-- `DPoVP.InsertBlock`. `valid` stands for every check of VerifyBeforeTxProcess / RunBlock /
+    VerifyAfterTxProcess that is outside this model (time slot, tx root, state roots). -/
+def insertBlock (C : Cfg) (s : St) (b : Blk) (valid : Bool) : St × String :=
   if (getBlock s b.id).isSome then (s, "ErrIgnoreBlock")
   else if b.height ≤ s.stable.height then (s, "ErrIgnoreBlock")
   else match getBlock s b.parent with
     | none => (s, "ErrVerifyBlockFailed")                 -- verifyParentHash
     | some p =>
-      if recover b.hdr ≠ some b.miner ∨ ¬ b.miner < s.n then (s, "ErrVerifyBlockFailed")  -- verifySigner
+      -- verifySigner: the header signer is a deputy of the block's term and is the named miner
+      if recover b.hdr ≠ some b.miner ∨ ¬ b.miner ∈ depsAt s b.height then (s, "ErrVerifyBlockFailed")
       else if p.height + 1 ≠ b.height then (s, "ErrVerifyBlockFailed")                    -- verifyHeight
       else if !valid then (s, "ErrVerifyBlockFailed")
       else
         -- block.Confirms = nil; block.Confirms, _ = VerifyNewConfirms(block, confirms)
-        saveNewBlock s { b with confirms := (V s.n { b with confirms := [] } b.confirms).1 }
+        let b1 : Blk := { b with confirms := (C.V (depsAt s b.height) { b with confirms := [] } b.confirms).1 }
+        let r := tryConfirm C s b1
+        saveNewBlock C r.1 r.2
+
+/-- `DPoVP.MineBlock`: `PrepareHeader` needs this node to be a deputy of the next height and builds
+    on the head; the block is signed by this node, carries no confirm and goes straight to
+    `saveNewBlock` (nothing is verified, no confirm is tried). The op supplies the hash (`id`,
+    `rank`) and the deputy list of a snapshot block; whether the node is in turn (`VerifyMiner`) is
+    outside the model: the harness emits the op only when the engine mined. -/
+def mineBlock (C : Cfg) (s : St) (b : Blk) : St × String :=
+  if ¬ s.self ∈ depsAt s (s.headHeight + 1) then (s, "ErrNotDeputy")
+  else saveNewBlock C s { b with parent := s.headId, height := s.headHeight + 1, miner := s.self,
+                                 hdr := selfSig s, confirms := [] }
 
 /-- the second half of `DPoVP.InsertConfirms`, after the confirms were stored. -/
-def afterConfirm (s1 : St) (nb : Blk) (height : Nat) : St × String :=
+def afterConfirm (C : Cfg) (s1 : St) (nb : Blk) (height : Nat) : St × String :=
   if height > s1.stable.height then
-    match updateStable s1 nb with
-    | (s2, _, true) => (s2, "ErrSetStableBlockToDB")
-    | (s2, _, false) => (updateForkForConfirm s2, "ok")
+    let r := updateStableFull C s1 nb
+    if r.2 = .err then (r.1, "ErrSetStableBlockToDB")
+    else if r.2 = .panic then (r.1, "panic")
+    else (updateForkForConfirm r.1, "ok")
   else (s1, "ok")
 
 /-- `DPoVP.InsertConfirms`. -/
-def insertConfirms (V : Verifier) (s : St) (id height : Nat) (sigs : List Sig) : St × String :=
+def insertConfirms (C : Cfg) (s : St) (id height : Nat) (sigs : List Sig) : St × String :=
   if sigs.isEmpty then (s, "ErrNoNewConfirm")
   else match getBlock s id with
     | none => (s, "ErrBlockNotExist")
     | some b =>
-      if isConfirmEnough s.dc s.n b then (s, "ErrConfirmsEnough")
+      if isConfirmEnough s.dc (depsAt s b.height) b then (s, "ErrConfirmsEnough")
       else if b.height ≠ height then (s, "ErrInvalidSignedConfirmInfo")     -- VerifyConfirmPacket
       else
-        let r := V s.n b sigs
+        let r := C.V (depsAt s b.height) b sigs
         if r.1.isEmpty then (s, if r.2 = .none then "ErrNoNewConfirm" else r.2.name)
-        else afterConfirm (saveConfirm s b r.1).1 (saveConfirm s b r.1).2 height
+        else afterConfirm C (saveConfirm s b r.1).1 (saveConfirm s b r.1).2 height
+
+/-- restart of the node on its data directory: the unconfirmed tree lives in memory only; the stable
+    block is the database copy; `Manager.init` reloads the terms from the committed snapshot blocks
+    (`none` from `saveSnapshots` = the node cannot start); head and lastSig restart at the stable block. -/
+def reopen (s : St) : St × String :=
+  match saveSnapshots s.termDur [] s.committed with      -- only the snapshot heights are read and saved
+  | none => (s, "panic")
+  | some t =>
+    match s.committed with
+    | [] => (s, "panic")
+    | top :: _ =>
+      ({ s with terms := t, tree := [], stable := top, headId := top.id, headHeight := top.height,
+                lastSigH := top.height, lastSigId := top.id }, "ok")
 
 inductive Op where
   | block (b : Blk) (valid : Bool)
+  | mine (b : Blk)
   | confirms (id height : Nat) (sigs : List Sig)
+  | reopen
   deriving Repr
 
-def step (V : Verifier) (s : St) : Op → St × String
-  | .block b valid => insertBlock V s b valid
-  | .confirms id h sigs => insertConfirms V s id h sigs
+def step (C : Cfg) (s : St) : Op → St × String
+  | .block b valid => insertBlock C s b valid
+  | .mine b => mineBlock C s b
+  | .confirms id h sigs => insertConfirms C s id h sigs
+  | .reopen => reopen s
 
-def run (V : Verifier) (s : St) (ops : List Op) : St :=
-  ops.foldl (fun s op => (step V s op).1) s
+def run (C : Cfg) (s : St) (ops : List Op) : St :=
+  ops.foldl (fun s op => (step C s op).1) s
+
+/-- `runP`: the run, as long as no operation ended in a Go panic. -/
+def runP (C : Cfg) (s : St) : List Op → Option St
+  | [] => some s
+  | op :: ops => if (step C s op).2 = "panic" then none else runP C (step C s op).1 ops
+
+/-- the engine before /repo commit d34eb0a: both tests compare bytes. -/
+def cfgBytes : Cfg := ⟨verifyNewConfirms, selfTestBytes⟩
+/-- the engine between commits d34eb0a and 262c027: VerifyNewConfirms by signer, TryConfirm by bytes. -/
+def cfgVerifierFixed : Cfg := ⟨verifyNewConfirmsFixed, selfTestBytes⟩
+/-- THE LIVE MODEL: the engine as it is now (VerifyNewConfirms since d34eb0a, TryConfirm /
+    tryConfirmStable since 262c027: `isSignedBySelf`): both tests compare signers. -/
+def cfgSigner : Cfg := ⟨verifyNewConfirmsFixed, selfTestSigner⟩
 
 /-! ### what the property counts -/
 
 /-- the nodes that signed `b`: the miner (header) and whatever the stored confirms recover to. -/
 def signersOf (b : Blk) : List Nat := b.miner :: b.confirms.filterMap recover
 
-/-- number of DISTINCT deputies (ranks `< n`) among the signers of `b`. -/
-def distinctCount (n : Nat) (b : Blk) : Nat :=
-  ((List.range n).filter (fun d => decide (d ∈ signersOf b))).length
+/-- remove repeated entries (keeps the last occurrence of each). -/
+def dedup : List Nat → List Nat
+  | [] => []
+  | x :: xs => if x ∈ dedup xs then dedup xs else x :: dedup xs
+
+/-- number of DISTINCT signers of `b` that are deputies of the list `deps`. -/
+def distinctCount (deps : List Nat) (b : Blk) : Nat :=
+  ((dedup (signersOf b)).filter (fun d => decide (d ∈ deps))).length
 
 end LemoModel.Stable
